@@ -491,18 +491,27 @@ def discharge(ctx, I, s, handles, need):
         ok5, why5 = need('I5')
         g_ = assert_guards(b, s.bb)
         # guarded by x < w and y < h (as negated early-return tests) and x,y >= 0
-        idx = strip_casts(at[1])
-        okg = False
-        if idx[0] == 'bin' and idx[1] == 'Add' and strip_casts(idx[2])[0] == 'bin' and strip_casts(idx[2])[1] == 'Mul':
-            mul = strip_casts(idx[2])
-            yy, ww, xx = strip_casts(mul[2]), strip_casts(mul[3]), strip_casts(idx[3])
+        import poly as PL
+        p_ = PL.poly(at[1])
 
-            def dim(t, nm):
-                t = strip_casts(t)
-                return (t[0] == 'call' and t[1] == 'asefile::tilemap::TilemapData::' + nm) or is_param_path(t, 1, [nm])
-            okg = dim(ww, 'width') and any(op == 'Lt' and a == xx and dim(c, 'width') for op, a, c in g_) and \
-                any(op == 'Lt' and a == yy and dim(c, 'height') for op, a, c in g_) and \
-                all(any(op == 'Ge' and a == v and q.const_val(c) == 0 for op, a, c in g_) for v in (xx, yy) if v[0] == 'bin' and v[1] == 'Sub')
+        def dim(t, nm):
+            t = PL.canon(t)
+            return (t[0] == 'call' and t[1] == 'asefile::tilemap::TilemapData::' + nm) or is_param_path(t, 1, [nm])
+        okg = False
+        wat = [a for k in p_ if len(k) == 2 for a in k if dim(a, 'width')]
+        if wat and all(len(k) in (1, 2) for k in p_):
+            W = wat[0]
+            xs = {k: v for k, v in p_.items() if len(k) == 1}                       # the column part
+            ys = {tuple(a for a in k if a != W): v for k, v in p_.items() if len(k) == 2 and W in k}   # the row part (divided by W)
+            complete = len(ys) == sum(1 for k in p_ if len(k) == 2) and all(len(k) == 1 for k in ys)
+
+            def guarded(op, pv, rhs):
+                return any(o == op and PL.poly(l) == pv and rhs(r) for o, l, r in g_)
+
+            def plain(pv):
+                return len(pv) == 1 and list(pv.values()) == [1]
+            okg = complete and bool(xs) and bool(ys) and guarded('Lt', xs, lambda r: dim(r, 'width')) and guarded('Lt', ys, lambda r: dim(r, 'height')) and \
+                (plain(xs) or guarded('Ge', xs, lambda r: q.const_val(r) == 0)) and (plain(ys) or guarded('Ge', ys, lambda r: q.const_val(r) == 0))
         return U('U4', ok5 and okg, 'tiles[y*w + x] with w the tilemap width, under the guards 0 <= x < w, 0 <= y < h, tiles.len() = w*h: ' + why5)
     if fn.endswith('tile::Tiles as std::ops::Index>::index'):
         g = CG.get(fx)
